@@ -67,7 +67,10 @@ def build(tier, seed):
     def _href():
         from contracts import links
         return links.href_obligations(PROP, lambda: c16.search(("end_to_end",)))
-    tasks = [a_task(PROP, _binding), a_task(PROP, _rebase), a_task(PROP, _one), a_task(PROP, _fil), a_task(PROP, _host), s_task(),
+    tasks = [standin_task(PROP, "pipeline.use_forms", lambda: __import__("bounded.c06", fromlist=["x"]).search(), "ford.fortran_project.Project.correlate (real pipeline)",
+                          "modules a <- b <- c: every USE form (renames, ONLY lists) x b's default access: the names each scope sees are the standard's (a renamed-away name does not shadow the scope's own entity)",
+                          "generated three-module projects", 1),
+             a_task(PROP, _binding), a_task(PROP, _rebase), a_task(PROP, _one), a_task(PROP, _fil), a_task(PROP, _host), s_task(),
              Task(f"{PROP}.S.casefold.names", PROP, "comparisons of entity names", lambda: __import__("contracts.casefold", fromlist=["x"]).name_obligations(PROP, replay=lambda: c16.search(("declarations",)))),
              __import__("contracts.C15", fromlist=["x"]).argparse_task(PROP, only=("externalize",), replay=lambda: c16.command_line_externalize()),
              Task(f"{PROP}.S.load_external", PROP, "load_external_modules", lambda: external.one_bad_project_costs_only_its_own_links(PROP, lambda: c16.search(("broken",)))),
